@@ -5,6 +5,7 @@ import (
 	"fmt"
 	"os"
 
+	"github.com/formancehq/ledger/xverif/lib/engineh"
 	"github.com/formancehq/ledger/xverif/lib/evid"
 	"github.com/formancehq/ledger/xverif/lib/nsgen"
 	"github.com/formancehq/ledger/xverif/lib/nsrun"
@@ -48,6 +49,38 @@ func init() {
 		for _, t := range texts {
 			r := nsrun.Run(t, &nsgen.Input{})
 			fmt.Printf("%q: class=%s phase=%s err=%q panic=%q\n", t, r.Class, r.Phase, r.Err, r.Panic)
+		}
+		return 0
+	}
+}
+
+func init() {
+	checks["DEV-realstore"] = func() int {
+		rep := evid.NewReporter("DEV-realstore", "exploration")
+		h, s := realStoreConformance(rep, "")
+		fmt.Println("histories", h, "steps", s)
+		return rep.Finish(evid.Coverage{"states": h, "transitions": s, "exhaustive": true})
+	}
+}
+
+func init() {
+	// DEV-realstore-one: one history ($VERIF_HISTORY: JSON list of op names) on the real store, panics not recovered
+	checks["DEV-realstore-one"] = func() int {
+		var names []string
+		_ = json.Unmarshal([]byte(os.Getenv("VERIF_HISTORY")), &names)
+		raw, _ := os.ReadFile(schemaFile)
+		real, err := rsRealStore(string(raw))
+		if err != nil {
+			fmt.Println(err)
+			return 2
+		}
+		er := engineh.StartOn(real, nil, nil)
+		for _, n := range names {
+			for _, o := range rsOps() {
+				if o.Name == n {
+					fmt.Println(n, "=>", o.Run(er))
+				}
+			}
 		}
 		return 0
 	}
